@@ -585,6 +585,11 @@ def run(rep):
     if not cq["ok"]:
         rep.violation("proof", {"theorem": cq["failed_theorem"], "log": cq["log"][-3000:]},
                       "proof obligation %s no longer checks" % cq["failed_theorem"], True)
+    if not quick and cq["ok"]:
+        ok, axioms = common.coqchk(PROP)
+        rep.coverage["coqchk"] = {"ok": ok, "context_summary": axioms[:1500]}
+        if not ok:
+            rep.violation("coqchk", {"output": axioms[-3000:]}, "coqchk rejects the compiled development", True)
     common.ensure_model(PROP)
     leaf = common.build_leaf("c10_lexdump", ["src/frontend/recursive_parser/recursive_lexer.cpp"])
     asan = common.build_impl("asan")
@@ -668,7 +673,7 @@ def run(rep):
 
     # ---------------- (3) generated streams, all through one pool
     cases = []        # (stream, label, data, mode, args, big_stack)
-    n_mut = 1500 if quick else 40000
+    n_mut = 1500 if quick else 20000
     for k in range(n_mut):
         rng = rng_for(seed, "c10-mut", k)
         f, d = rng.choice(usable)
@@ -684,7 +689,7 @@ def run(rep):
             continue
         cases.append(("mutation", "%s:%s" % (os.path.relpath(f, common.REPO), "+".join(kinds)), m, "parse", [], False))
     # truncation at EVERY token boundary of a few files
-    n_trunc_files = 3 if quick else 60
+    n_trunc_files = 3 if quick else 30
     rngt = rng_for(seed, "c10-trunc")
     smallf = [(f, d) for f, d in usable if len(d) <= (1500 if quick else 4000)]
     for f, d in rngt.sample(smallf, min(n_trunc_files, len(smallf))):
@@ -713,7 +718,7 @@ def run(rep):
         toks[i] = b"(" * dpt + toks[i] + b")" * dpt
         cases.append(("amplify-file", "%s:%d" % (os.path.relpath(f, common.REPO), dpt), b"".join(toks), "parse", [], False))
     # raw bytes, ascii noise, token soup
-    for k in range(800 if quick else 25000):
+    for k in range(800 if quick else 12000):
         kind, d = soup(rng_for(seed, "c10-soup", k))
         cases.append((kind, "", d, "parse", [], False))
     # corpus of minimised past failures
@@ -725,7 +730,7 @@ def run(rep):
 
     # directive-only files: model verdict
     pp_cases = []
-    for k in range(200 if quick else 5000):
+    for k in range(200 if quick else 3000):
         rng = rng_for(seed, "c10-pp", k)
         text, args = directive_file(rng)
         pp_cases.append((text, args))
@@ -733,7 +738,7 @@ def run(rep):
                                        for t, args in pp_cases])
     # println(<expr>); programs: model verdict
     ex_cases = []
-    for k in range(450 if quick else 12000):
+    for k in range(450 if quick else 6000):
         rng = rng_for(seed, "c10-expr", k)
         ex_cases.append(expr_case(rng))
     ex_model = model_lines("verdict", [t.encode().hex() for _, _, t in ex_cases])
@@ -744,7 +749,7 @@ def run(rep):
         import gen_core
         import langrun
         sx = []
-        for k in range(400 if quick else 8000):
+        for k in range(400 if quick else 5000):
             rng = rng_for(seed, "c10-core", k)
             g = gen_core.Gen(rng, gen_core.Opts(wide_lits=False))
             # avoid C10-shift-ub: shift operators are replaced (any count outside 0..63 / negative operand is UB in the evaluator)
@@ -757,18 +762,28 @@ def run(rep):
     for m in core_srcs:
         cases.append(("cbcore-exec", m["expect"], m["src"].encode(), "full", [], False))
 
+    # a hanging implementation must not stall the check: after 25 time-outs the remaining runs get 1 s of CPU
+    hung = {"n": 0}
+
+    def guarded(data, mode, args, big):
+        slow = hung["n"] > 25
+        r = run_case(asan, data, mode, args, big, cpu=1 if slow else 10, wall=10 if slow else 60)
+        if r["killed"] or r["rc"] in (-24, -25, -9):
+            hung["n"] += 1
+        return r
+
     def run_one(c):
-        return c, run_case(asan, c[2], c[3], c[4], c[5])
+        return c, guarded(c[2], c[3], c[4], c[5])
     t_run = time.time()
     results = common.pmap(run_one, cases)
 
     def run_pp(c):
         text, args = c
-        return run_case(asan, text.encode(), "parse", ["-D" + a for a in args])
+        return guarded(text.encode(), "parse", ["-D" + a for a in args], False)
     pp_res = common.pmap(run_pp, pp_cases)
 
     def run_ex(c):
-        return run_case(asan, ("void main() { println(%s); }\n" % c[2]).encode(), "parse")
+        return guarded(("void main() { println(%s); }\n" % c[2]).encode(), "parse", [], False)
     ex_res = common.pmap(run_ex, ex_cases)
     rep.coverage["campaign_wall_s"] = round(time.time() - t_run, 1)
 
